@@ -367,7 +367,11 @@ def duplication(R, ctx):
             # a failing file writer / additional primary writer must not suppress the duplicates: on a row on which such a write returned Err
             # both duplication decisions have been taken (the duplicates are documented to depend on level and setting only)
             wfail = [a for a, v in r.cond if v == 'Err' and re.search(r'LogWriter>?::write#', a) and a.startswith('variant(')]
-            if wfail and (de is None or do is None):
+            done = repr(r.result).replace('$', '').startswith('Result::Ok')
+            if done and not wfail and (de is None or do is None):
+                problems.insert(0, f"MultiWriter::write completes on a path on which the run-time duplication level of {'stderr' if de is None else 'stdout'} (the atomic that "
+                                "adapt_duplication_to_* stores into) is not read: a level set at run time has no effect there, the record is not duplicated whatever its level")
+            elif wfail and (de is None or do is None):
                 problems.append(f"a failing write to the file writer / primary writer ends MultiWriter::write before the duplication to {'stderr' if de is None else 'stdout'} "
                                 "was decided: while the primary output fails, records at or above the duplication level are not duplicated")
             err_eff = [e for e in r.effects if (e[0].endswith('write_buffered') and 'stderr' in e[1][3]) or e[0] == 'std::io::_eprint']
